@@ -14,6 +14,23 @@ try:
         print("spec self-test FAILED")
         sys.exit(2)
     print("spec self-test ok (%.1fs)" % r.wall)
+    # the Apalache lemma module must state its lemmas about the very operators of NasSec.tla
+    import re
+    def norm(x):
+        return re.sub(r"\s+", " ", x.replace("last", "l")).strip()
+    nassec = norm(open(os.path.join(vlib.SPEC, "NasSec.tla")).read())
+    lemma = open(os.path.join(vlib.SPEC, "NasCountLemma.tla")).read()
+    for op in ("Sqn(c) ==", "Ovf(c) ==", "AddOne(c) ==", "MkCount(ovf, sqn) ==", "Estimate(l, sqn) =="):
+        line = [norm(x) for x in lemma.splitlines() if x.startswith(op)]
+        if len(line) != 1 or line[0] not in nassec:
+            print("NasCountLemma.tla: operator %s differs from NasSec.tla" % op)
+            sys.exit(2)
+    ok, txt = vlib.run_apalache(d, "NasCountLemma", "Lemmas")
+    if not ok:
+        print(txt[-2000:])
+        print("NasCountLemma FAILED")
+        sys.exit(2)
+    print("NasCountLemma (Apalache) ok")
     cmds = sorted(os.listdir(os.path.join(vlib.HARNESS, "cmd")))
     sc.build(cmds)
     sc.build_emulator()
